@@ -368,7 +368,9 @@ func roundTrip(c *Case) (string, string) {
 		blob := blobBytes(c.BlobLen, c.BlobSeed)
 		var err error
 		if c.FailFirst == "sign" {
-			notation.SignBlob(ctx, sgn, &failingReader{data: append([]byte("prefix that must not leak into the next digest"), blob...)}, notation.SignBlobOptions{SignerSignOptions: sopts, ContentMediaType: c.MediaType})
+			if _, _, ferr := notation.SignBlob(ctx, sgn, &failingReader{data: append([]byte("prefix that must not leak into the next digest"), blob...)}, notation.SignBlobOptions{SignerSignOptions: sopts, ContentMediaType: c.MediaType}); ferr == nil {
+				return "C07:signed-unreadable-blob:" + site, "SignBlob returned a signature although reading the blob failed in mid-stream: the signature cannot be for the blob"
+			}
 		}
 		env, _, err = notation.SignBlob(ctx, sgn, reader(c.SignReader, blob), notation.SignBlobOptions{SignerSignOptions: sopts, ContentMediaType: c.MediaType, UserMetadata: c.Metadata})
 		if err != nil {
@@ -380,8 +382,10 @@ func roundTrip(c *Case) (string, string) {
 			return "harness", "verifier: " + err.Error()
 		}
 		if c.FailFirst == "verify" {
-			notation.VerifyBlob(ctx, v, &failingReader{data: append([]byte("prefix that must not leak into the next digest"), blob...)}, env, notation.VerifyBlobOptions{
-				BlobVerifierVerifyOptions: notation.BlobVerifierVerifyOptions{SignatureMediaType: c.Format}, ContentMediaType: c.MediaType})
+			if _, _, ferr := notation.VerifyBlob(ctx, v, &failingReader{data: append([]byte("prefix that must not leak into the next digest"), blob...)}, env, notation.VerifyBlobOptions{
+				BlobVerifierVerifyOptions: notation.BlobVerifierVerifyOptions{SignatureMediaType: c.Format}, ContentMediaType: c.MediaType}); ferr == nil {
+				return "C07:verified-unreadable-blob:" + site, "VerifyBlob succeeded although reading the blob failed in mid-stream"
+			}
 		}
 		got, out, err := notation.VerifyBlob(ctx, v, reader(c.VerReader, blob), env, notation.VerifyBlobOptions{
 			BlobVerifierVerifyOptions: notation.BlobVerifierVerifyOptions{SignatureMediaType: c.Format, UserMetadata: c.Metadata}, ContentMediaType: c.MediaType})
